@@ -158,6 +158,17 @@ def run(ctx):
             ctx.check(ok, "layout", tag + "|per-level", ctx.loc(f), "per level: %s as documented" % [x[:2] for x in pc],
                       "per-level elements are %s but documented as %s" % (pc, pd_))
             ctx.check(rng == (0, 10) and not other, "layout", tag + "|levels", ctx.loc(f), "level loop ranges over 0..10 (5 + 4*10 = 45 elements)", "level loop range is %s" % (rng,))
+            q = m.q(f)
+            heads = q.body.loop_heads()
+            full = len(heads) == 1 and q.cfg.loop_runs_to_completion(list(heads)[0])[0]
+            pcalls = sorted([c for c in q.calls("push") if q.cfg.in_loop(c.b)], key=lambda c: c.b)
+            every = all(all(a[0] == "variant" and a[2] == ("Some",) for a in c.guards) for c in pcalls)
+            ctx.check(full and every, "layout", tag + "|all-levels", ctx.loc(f), "every level is appended: the loop has no early exit and the 4 pushes are unconditional",
+                      "the level loop can stop early or skip pushes (levels behind would not hold the documented quantities)")
+            MUT = ("resize", "resize_with", "truncate", "insert", "remove", "extend", "extend_from_slice", "append", "swap", "clear", "drain", "retain", "fill", "reverse", "sort", "pop", "set_len", "split_off")
+            other_mut = [c.name for c in q.calls() if c.name in MUT and c.args and c.args[0][0] == "local"]
+            ctx.check(not other_mut, "layout", tag + "|no-other-mutation", ctx.loc(f), "the array is built only by the literal prefix and the level pushes",
+                      "the array is also modified by %s" % other_mut)
             # all pushes use the loop variable as the level index
             ctx.check(all(x[2] == "n" for x in pc if len(x) == 3), "layout", tag + "|level-index", ctx.loc(f), "every per-level element is indexed by the loop variable")
     # base_agent.py docstring vs StepEnvNumpy.level_2_data
